@@ -126,9 +126,14 @@ def expected_leaves(obj, alg, top=False):
     from kingdon.multivector import MultiVector
     if isinstance(obj, MultiVector):
         if len(obj.shape) > 1:
+            # array-valued: one element per index of the trailing shape, in row-major order - computed here, not with itermv()
+            import itertools
+            import numpy as np
+            canon = list(alg.canon2bin.values())
+            arrs = {k: np.asarray(v) for k, v in zip(obj.keys(), obj.values())}
             out = []
-            for sub in obj.itermv():
-                out.extend(expected_leaves(sub, alg))
+            for idx in itertools.product(*(range(n) for n in obj.shape[1:])):
+                out.append(('Element', [arrs[k][idx].item() if k in arrs else 0 for k in canon]))
             return out
         canon = list(alg.canon2bin.values())
         d = dict(zip(obj.keys(), obj.values()))
@@ -197,7 +202,7 @@ def rand_mv(rng, alg, scene, allow_array=True, force=None):
         vals = [fl() for _ in ks]
     elif layout in ('array-nd', 'array-list'):
         ks = gen.random_subset(rng, canon, min(4, n), 1)
-        shape = rng.choice([(2,), (3,), (2, 2)])
+        shape = rng.choice([(2,), (3,), (2, 2), (2, 3), (3, 2, 2)])
         arrs = [np.array([fl() for _ in range(int(np.prod(shape)))]).reshape(shape) for _ in ks]
         vals = np.array(arrs) if layout == 'array-nd' else arrs
     else:
@@ -238,7 +243,9 @@ def run_shard(shard, ctx):
     for unit in shard['units']:
         cfg = unit['cfg']
         name = gen.cfg_str(cfg)
-        alg = gen.make_algebra(cfg)
+        alg = gen.make_or_skip(ctx, cfg)
+        if alg is None:
+            continue
         iso = Iso(alg)
         ctx.count('algebras')
         for i in range(unit['scenes']):
